@@ -3,7 +3,8 @@
 // path with the session's iBGP / RR-client flags, read back by a small TLV reader).
 //
 // Input tokens:  S:<kind>:<maxpaths>:<role>  C<chain>  P<path> P<path> ...   (each path on a fresh Adj-RIB-Out)
-// Observation, one token per path:  <stored path | ->#<wire | ->
+// Observation, one token per path:  <stored | ->#<wire | ->#<stored | ->#<wire | ->   (via AddPath; via RefreshRoute:
+// the route is in a Loc-RIB, the session starts with a reject-all chain which is then replaced by the case's chain)
 //
 //	wire = attributes in wire order joined by ";":  2=<aspath> 1=<origin> 3=<nh> 4=<med> 6 7=<asn>.<addr>
 //	       5=<lp> 9=<oid> 10=<ids> 8=<comms> 32=<lcomms> u<code>:<bytes>
@@ -19,6 +20,7 @@ import (
 	"github.com/bio-routing/bio-rd/protocols/bgp/packet"
 	"github.com/bio-routing/bio-rd/route"
 	"github.com/bio-routing/bio-rd/routingtable/adjRIBOut"
+	"github.com/bio-routing/bio-rd/routingtable/locRIB"
 
 	"verifharness/aro"
 	"verifharness/hx"
@@ -188,23 +190,15 @@ func runCase(c tcase) (obs string, v *verdict, nontrivial bool) {
 	}
 	s := c.sess
 	ident := identityChain(c.chain)
-	var out []string
-	for i, p := range c.paths {
-		a := adjRIBOut.New(nil, s.Attrs(), c.chain.Build())
-		if err := a.AddPath(aro.Pfx(0), p.Build()); err != nil {
-			fail("addpath-error", err.Error())
+	// check evaluates the property's clauses on one stored path (nil: nothing stored) and renders it
+	check := func(i int, via string, p aro.PS, sp *route.Path) string {
+		if sp == nil {
+			return "-#-"
 		}
-		d := a.Dump()
-		if len(d) == 0 {
-			out = append(out, "-#-")
-			continue
-		}
-		sp := d[0].Paths()[0]
 		q, err := aro.Describe(sp)
 		if err != nil {
 			fail("malformed-stored-path", err.Error())
-			out = append(out, "!#-")
-			continue
+			return "!#-"
 		}
 		// ---- the wire
 		wire := "-"
@@ -231,11 +225,10 @@ func runCase(c tcase) (obs string, v *verdict, nontrivial bool) {
 			wire = "PANIC"
 			fail("panic-serialize", fmt.Sprintf("path %d (%s): %v", i, p.Token(), pv))
 		}
-		out = append(out, q.Token()+"#"+wire)
 		nontrivial = true
 
 		// ---- spec oracle: the property's clauses on what was stored / written
-		where := fmt.Sprintf("path %d (%s) on %s", i, p.Token(), s.Token())
+		where := fmt.Sprintf("path %d (%s) on %s via %s", i, p.Token(), s.Token(), via)
 		if !p.Static {
 			if hasComm(p, aro.NoAdv) {
 				fail("advertised-with-no-advertise", where)
@@ -254,7 +247,7 @@ func runCase(c tcase) (obs string, v *verdict, nontrivial bool) {
 			}
 		}
 		if seen == nil {
-			continue
+			return q.Token() + "#" + wire
 		}
 		if _, ok := seen[5]; ok != s.IBGP() {
 			fail("local-pref-on-wire-iff-ibgp", fmt.Sprintf("%s: LOCAL_PREF on wire=%v", where, ok))
@@ -268,7 +261,7 @@ func runCase(c tcase) (obs string, v *verdict, nontrivial bool) {
 			}
 		}
 		if !ident {
-			continue // the policy may legitimately rewrite next hop / AS path again
+			return q.Token() + "#" + wire // the policy may legitimately rewrite next hop / AS path again
 		}
 		var in aro.PS
 		if p.Static {
@@ -298,6 +291,35 @@ func runCase(c tcase) (obs string, v *verdict, nontrivial bool) {
 				fail("rr-client-cluster-list", where)
 			}
 		}
+		return q.Token() + "#" + wire
+	}
+	first := func(a *adjRIBOut.AdjRIBOut) *route.Path {
+		d := a.Dump()
+		if len(d) == 0 || len(d[0].Paths()) == 0 {
+			return nil
+		}
+		return d[0].Paths()[0]
+	}
+	drain := aro.Chain{{{Acts: []aro.Act{{Kind: "rej"}}}}}
+	var out []string
+	for i, p := range c.paths {
+		// (1) the route arrives while the policy is in force: AddPath
+		a := adjRIBOut.New(nil, s.Attrs(), c.chain.Build())
+		if err := a.AddPath(aro.Pfx(0), p.Build()); err != nil {
+			fail("addpath-error", err.Error())
+		}
+		o1 := check(i, "AddPath", p, first(a))
+		// (2) the route is there and the policy comes into force: ReplaceFilterChain -> RefreshRoute
+		o2 := "-#-"
+		if !(p.Static && p.StaticNil) { // the Loc-RIB needs a StaticPath
+			lr := locRIB.New("c09")
+			b := adjRIBOut.New(lr, s.Attrs(), drain.Build())
+			lr.RegisterWithOptions(b, s.ClientOptions())
+			lr.AddPath(aro.Pfx(0), p.Build())
+			b.ReplaceFilterChain(c.chain.Build())
+			o2 = check(i, "RefreshRoute", p, first(b))
+		}
+		out = append(out, o1+"#"+o2)
 	}
 	return strings.Join(out, " "), v, nontrivial
 }
@@ -361,6 +383,41 @@ func sweep(do func(id string, c tcase)) int {
 	return n
 }
 
+// sweepCommunities: every community LIST of length 0-4 over {NO_EXPORT, NO_ADVERTISE, NO_EXPORT_SUBCONFED (not
+// known to the code: an ordinary community), 100} - all orders, all combinations - for iBGP- and eBGP-learned
+// paths against the four session kinds. The community rules are about membership, whatever the order.
+func sweepCommunities(do func(id string, c tcase)) int {
+	n := 0
+	dom := []uint32{aro.NoExport, aro.NoAdv, 0xFFFFFF03, 100}
+	var lists [][]uint32
+	var rec func(cur []uint32)
+	rec = func(cur []uint32) {
+		lists = append(lists, append([]uint32{}, cur...))
+		if len(cur) == 4 {
+			return
+		}
+		for _, c := range dom {
+			rec(append(cur, c))
+		}
+	}
+	rec(nil)
+	base := aro.PS{NH: 0x03030303, Src: 0x03030303, LP: 100, BGPID: 0x03030303, ASPath: []aro.Seg{{Seq: true, ASNs: []uint32{65001}}}, ASLen: 1, CLNil: true, LCommsNil: true}
+	for _, k := range []string{"ebgp", "rs", "ibgp", "rr"} {
+		for _, ebgp := range []bool{false, true} {
+			c := tcase{sess: aro.Sess{Kind: k, Role: "-"}, chain: aro.Chain{{{Acts: []aro.Act{{Kind: "acc"}}}}}}
+			for _, l := range lists {
+				p := base
+				p.EBGP = ebgp
+				p.Comms = l
+				c.paths = append(c.paths, p)
+			}
+			do(fmt.Sprintf("comms-%s-%v", k, ebgp), c)
+			n++
+		}
+	}
+	return n
+}
+
 func main() {
 	cfg := hx.Parse()
 	tr := hx.NewTrace(cfg.Out)
@@ -399,7 +456,7 @@ func main() {
 			tr.Count("corpus")
 		}
 		if cfg.Mode == "check" {
-			tr.Dist["sweep_cases"] = sweep(do)
+			tr.Dist["sweep_cases"] = sweep(do) + sweepCommunities(do)
 		}
 		rng := hx.NewRNG(cfg.Seed)
 		for i := 0; i < cfg.N; i++ {
